@@ -150,6 +150,28 @@ func (w *World) KubeletUnflap(key string) bool {
 	return true
 }
 
+// KubeletRestartContainer: the container of a running Pod (restartPolicy
+// OnFailure) fails and is restarted in place: the Pod stays Running, the
+// container status carries the previous termination in lastState.
+func (w *World) KubeletRestartContainer(key string) bool {
+	w.asKubelet()
+	p := w.pod(key)
+	if p == nil || p.Status.Phase != corev1.PodRunning || len(p.Status.ContainerStatuses) == 0 || p.Spec.RestartPolicy != corev1.RestartPolicyOnFailure {
+		return false
+	}
+	now := metav1.NewTime(w.Clock.Now())
+	cs := &p.Status.ContainerStatuses[0]
+	started := now
+	if cs.State.Running != nil {
+		started = cs.State.Running.StartedAt
+	}
+	cs.LastTerminationState = corev1.ContainerState{Terminated: &corev1.ContainerStateTerminated{ExitCode: 1, Reason: "Error", StartedAt: started, FinishedAt: now}}
+	cs.State = corev1.ContainerState{Running: &corev1.ContainerStateRunning{StartedAt: now}}
+	cs.RestartCount++
+	w.writePodStatus(p)
+	return true
+}
+
 // KubeletTerminate confirms the termination of a Pod that is being deleted:
 // the object leaves the API.
 func (w *World) KubeletTerminate(key string) bool {
